@@ -929,6 +929,200 @@ fn parse_mode(s: &str) -> Mode {
     }
 }
 
+
+// ------------------------------------------------------------------------------------------------ canonical writings
+// Rust twin of coq/Model/NumericCanon.v: the Coq side REBUILDS the string from the value (check_canon) and from the two
+// groups (check_two_units) and compares it with the string built here, so the two definitions cannot drift apart.
+type Grp = [u32; 4];
+
+fn grp_of(m: u64) -> Grp {
+    [((m / 1000) % 10) as u32, ((m / 100) % 10) as u32, ((m / 10) % 10) as u32, (m % 10) as u32]
+}
+
+fn sdig(g: &Grp) -> Vec<u32> {
+    let mut v: Vec<u32> = g.to_vec();
+    while !v.is_empty() && v[0] == 0 {
+        v.remove(0);
+    }
+    v
+}
+
+fn cdigit(arabic: bool, d: u32) -> char {
+    if arabic {
+        char::from_digit(d, 10).unwrap()
+    } else {
+        KANJI_DIGITS[d as usize]
+    }
+}
+
+/// style bits of one group: bit 0 = 一千, bit 1 = 一百, bit 2 = 一十, bit 3 = Arabic coefficient digits
+fn kanji_group_text(st: u32, g: &Grp) -> String {
+    let arabic = st & 8 != 0;
+    let mut s = String::new();
+    for (k, u) in ['千', '百', '十'].iter().enumerate() {
+        let x = g[k];
+        if x == 0 {
+            continue;
+        }
+        if !(x == 1 && st & (1 << k) == 0) {
+            s.push(cdigit(arabic, x));
+        }
+        s.push(*u);
+    }
+    if g[3] != 0 {
+        s.push(cdigit(arabic, g[3]));
+    }
+    s
+}
+
+fn arabic_group_text(g: &Grp) -> String {
+    sdig(g).iter().map(|d| char::from_digit(*d, 10).unwrap()).collect()
+}
+
+fn group_text(arabic_group: bool, st: u32, g: &Grp) -> String {
+    if arabic_group {
+        arabic_group_text(g)
+    } else {
+        kanji_group_text(st, g)
+    }
+}
+
+/// canon_of (kinds_of kinds) (styles_of styles) n
+fn canon_text(kinds: u32, styles: u32, n: u64) -> String {
+    let gs = [grp_of(n / 1_0000_0000_0000), grp_of(n / 1_0000_0000), grp_of(n / 1_0000), grp_of(n)];
+    let units = ['兆', '億', '万'];
+    let mut s = String::new();
+    for (k, g) in gs.iter().enumerate() {
+        let i = 3 - k; // group position: 3 = 兆 ... 0 = ones
+        if sdig(g).is_empty() {
+            continue;
+        }
+        s.push_str(&group_text(kinds & (1 << i) != 0, (styles >> (4 * i)) & 15, g));
+        if i > 0 {
+            s.push(units[k]);
+        }
+    }
+    s
+}
+
+fn groom(g: &Grp) -> usize {
+    if g[3] != 0 {
+        0
+    } else if g[2] != 0 {
+        1
+    } else if g[1] != 0 {
+        2
+    } else {
+        3
+    }
+}
+
+fn uchar(e: usize) -> char {
+    match e {
+        4 => '万',
+        8 => '億',
+        _ => '兆',
+    }
+}
+
+fn coq_grp(g: &Grp) -> String {
+    format!("({}, {}, {}, {})", cn(g[0]), cn(g[1]), cn(g[2]), cn(g[3]))
+}
+
+fn canon_case(sink: &mut Sink, kinds: u32, styles: u32, n: u64, verbose: bool) {
+    let text = canon_text(kinds, styles, n);
+    let d = json!({"kind": "canon", "kinds": kinds, "styles": styles, "n": n, "input": text});
+    let (ok, err, norm) = match catch(|| verif_parse_numeral(&text)) {
+        Ok(x) => x,
+        Err(p) => {
+            let id = sink.case_rust_only(d, true);
+            sink.fail(id, &format!("numeral parser panicked on {:?}: {}", text, p), "");
+            return;
+        }
+    };
+    if verbose {
+        println!("canonical writing of {} (kinds {:#x}, styles {:#x}): {:?}", n, kinds, styles, text);
+        println!("implementation: (accepted={}, error_state={}, normalized={:?})", ok, err, norm);
+    }
+    sink.tag("parser:canonical_writing_of_value");
+    let term = format!("check_canon {} {} {} {} {} {} {}", cn(kinds), cn(styles), cn(n), ctext(&text), cbool(ok), cn(err), ctext(&norm));
+    let id = sink.case(term, d, text.chars().count() > 1);
+    if !ok {
+        sink.fail(id, &format!("canonical writing {:?} of {} rejected by the parser (error state {})", text, n, err), "");
+    } else if norm != n.to_string() {
+        sink.fail(id, &format!("canonical writing {:?} of {} normalised to {:?}", text, n, norm), "");
+    }
+}
+
+#[allow(clippy::too_many_arguments)]
+fn two_unit_case(sink: &mut Sink, ar1: bool, st1: u32, ar2: bool, st2: u32, g1: Grp, e1: usize, g2: Grp, e2: usize, verbose: bool) {
+    let text = format!("{}{}{}{}", group_text(ar1, st1, &g1), uchar(e1), group_text(ar2, st2, &g2), uchar(e2));
+    let d = json!({"kind": "two_units", "ar1": ar1, "st1": st1, "ar2": ar2, "st2": st2, "g1": g1, "e1": e1, "g2": g2, "e2": e2, "input": text});
+    let (ok, err, norm) = match catch(|| verif_parse_numeral(&text)) {
+        Ok(x) => x,
+        Err(p) => {
+            let id = sink.case_rust_only(d, true);
+            sink.fail(id, &format!("numeral parser panicked on {:?}: {}", text, p), "");
+            return;
+        }
+    };
+    let room1 = if ar1 { 0 } else { groom(&g1) };
+    let fits = sdig(&g2).len() + e2 <= room1 + e1;
+    if verbose {
+        println!("two-unit numeral {:?}: fits = {}; implementation: (accepted={}, error_state={}, normalized={:?})", text, fits, ok, err, norm);
+    }
+    sink.tag(if e1 > e2 { "parser:two_units_descending" } else if e1 == e2 { "parser:two_units_repeated" } else { "parser:two_units_increasing" });
+    let term = format!(
+        "check_two_units {} {} {} {} {} {}%nat {} {}%nat {} {} {} {}",
+        cbool(ar1), cn(st1), cbool(ar2), cn(st2), coq_grp(&g1), e1, coq_grp(&g2), e2, ctext(&text), cbool(ok), cn(err), ctext(&norm)
+    );
+    let id = sink.case(term, d, true);
+    if ok != fits {
+        sink.fail(id, &format!("{:?}: accepted = {}, but the digits of the second group plus its unit {} the room of the first (C15_unit_order_behaviour)", text, ok, if fits { "fit into" } else { "do not fit into" }), "");
+    } else if ok {
+        // the value must be the sum of the two parts
+        let v = |g: &Grp, e: usize| (g[0] as u128 * 1000 + g[1] as u128 * 100 + g[2] as u128 * 10 + g[3] as u128) * 10u128.pow(e as u32);
+        let sum = v(&g1, e1) + v(&g2, e2);
+        if norm != sum.to_string() {
+            sink.fail(id, &format!("{:?} joined into {:?}; the sum of its parts is {}", text, norm, sum), "");
+        }
+    } else if err != 0 {
+        sink.fail(id, &format!("{:?} rejected with error state {} (expected NONE)", text, err), "");
+    }
+}
+
+fn rand_value16(rng: &mut Rng) -> u64 {
+    loop {
+        let mag = 1 + rng.below(16) as u32;
+        let mut v = rng.next() % 10u64.pow(mag);
+        if rng.chance(1, 3) {
+            let z = rng.below(mag as u64) as u32;
+            v = v / 10u64.pow(z) * 10u64.pow(z);
+        }
+        if rng.chance(1, 4) {
+            // digits 0 and 1 only: many omitted-one and skipped slots
+            let mut w = 0u64;
+            for _ in 0..mag {
+                w = w * 10 + rng.below(2);
+            }
+            v = w;
+        }
+        if v > 0 {
+            return v;
+        }
+    }
+}
+
+fn rand_group(rng: &mut Rng) -> Grp {
+    loop {
+        let g: Grp = [rng.below(10) as u32, rng.below(10) as u32, rng.below(10) as u32, rng.below(10) as u32];
+        let g: Grp = if rng.chance(1, 2) { [if rng.chance(1, 2) { 0 } else { g[0] }, if rng.chance(1, 2) { 0 } else { g[1] }, if rng.chance(1, 2) { 0 } else { g[2] }, if rng.chance(1, 2) { 0 } else { g[3] }] } else { g };
+        if g.iter().any(|d| *d != 0) {
+            return g;
+        }
+    }
+}
+
 fn fullwidth_some(s: &str, rng: &mut Rng) -> String {
     s.chars().map(|c| if c.is_ascii_digit() && rng.chance(1, 2) { FULLWIDTH_DIGITS[c.to_digit(10).unwrap() as usize] } else { c }).collect()
 }
@@ -953,12 +1147,24 @@ pub fn numeric_dict(work: &Path) -> JapaneseDictionary {
 }
 
 pub fn run(args: &Args) {
-    let mut sink = Sink::new("C15", &args.out, &["Model.Numeric"], args.seed, &args.tier);
-    sink.rule("(a) numeral parser via verif_parse_numeral vs Coq model: numerals generated FROM A VALUE (plain Arabic/kanji/mixed digits up to 150 digits, comma groups, fractions with trailing zeros, unit notation 十..兆 below 10^16 with optional/positional coefficients, fraction x unit, long digit string x large unit) with the expected rendering; near-miss malformed strings (bad comma groups, dangling/double points, swapped or repeated units) with the required error state; random strings over the numeral alphabet checked against an exact fixed-point reference ('never a wrong value'); (b) the same numerals embedded in text and analysed with a dictionary tagging digits/units as numerals and JoinNumericPlugin: one token, normalised form = rendering; malformed: pieces only; (c) the pipeline cases repeated with a StatefulTokenizer restricted to 14 word-info field subsets (with / without NORMALIZED_FORM, POS_ID, SURFACE, ...) in modes A/B/C: same boundaries as with all fields, same normalised forms when requested, well-formed numeral = one token with the expected rendering.  non-trivial = more than one character (parser) / at least one merge (pipeline)");
+    let mut sink = Sink::new("C15", &args.out, &["Model.Numeric", "Model.NumericCanon"], args.seed, &args.tier);
+    sink.rule("(a) numeral parser via verif_parse_numeral vs Coq model: numerals generated FROM A VALUE (plain Arabic/kanji/mixed digits up to 150 digits, comma groups, fractions with trailing zeros, unit notation 十..兆 below 10^16 with optional/positional coefficients, fraction x unit, long digit string x large unit) with the expected rendering; near-miss malformed strings (bad comma groups, dangling/double points, swapped or repeated units) with the required error state; random strings over the numeral alphabet checked against an exact fixed-point reference ('never a wrong value'); (a') canonical writings of values 0 < n < 10^16 exactly as defined in Model/NumericCanon.v (per group kanji units with written / omitted 一 and kanji / Arabic coefficients, or Arabic digits + large unit): the Coq term rebuilds the string from the value; (a'') two non-zero groups with arbitrary large units (descending, repeated, increasing): accepted iff C15_unit_order_behaviour says so, value = sum; (b) the same numerals embedded in text and analysed with a dictionary tagging digits/units as numerals and JoinNumericPlugin: one token, normalised form = rendering; malformed: pieces only; (c) the pipeline cases repeated with a StatefulTokenizer restricted to 14 word-info field subsets (with / without NORMALIZED_FORM, POS_ID, SURFACE, ...) in modes A/B/C: same boundaries as with all fields, same normalised forms when requested, well-formed numeral = one token with the expected rendering.  non-trivial = more than one character (parser) / at least one merge (pipeline)");
     if let Some(p) = &args.replay {
         let v: Value = serde_json::from_str(&std::fs::read_to_string(p).unwrap()).unwrap();
         let c = &v["case"];
         let want = c["want_err"].as_u64().map(|x| x as u8);
+        if c["kind"] == "canon" {
+            canon_case(&mut sink, c["kinds"].as_u64().unwrap() as u32, c["styles"].as_u64().unwrap() as u32, c["n"].as_u64().unwrap(), true);
+            sink.finish();
+            return;
+        }
+        if c["kind"] == "two_units" {
+            let g = |v: &Value| -> Grp { [v[0].as_u64().unwrap() as u32, v[1].as_u64().unwrap() as u32, v[2].as_u64().unwrap() as u32, v[3].as_u64().unwrap() as u32] };
+            two_unit_case(&mut sink, c["ar1"].as_bool().unwrap(), c["st1"].as_u64().unwrap() as u32, c["ar2"].as_bool().unwrap(), c["st2"].as_u64().unwrap() as u32,
+                          g(&c["g1"]), c["e1"].as_u64().unwrap() as usize, g(&c["g2"]), c["e2"].as_u64().unwrap() as usize, true);
+            sink.finish();
+            return;
+        }
         if c["kind"] == "subset" {
             let dict = numeric_dict(&args.work);
             let name = c["subset"].as_str().unwrap().to_string();
@@ -989,6 +1195,29 @@ pub fn run(args: &Args) {
     for _ in 0..args.n(900, 20000) {
         let n = gen_wellformed(&mut rng);
         parse_case(&mut sink, &n.text, Some(&n.expected), None, n.tag, false);
+    }
+    // canonical writings of values (exactly Model/NumericCanon.v: check_canon rebuilds the string from the value)
+    for (kinds, styles, n) in [(0u32, 0u32, 3200013270014u64), (15, 0, 3200013270014), (0, 0xffff, 1111111111111111), (0, 0, 1111111111111111),
+                               (5, 0x8888, 9999999999999999), (0, 0, 1), (0, 0, 10), (0, 0x7, 10), (0, 0, 10000), (0, 0, 100000000), (0, 0, 1000000000000), (10, 0x0f0f, 1001000100100011)] {
+        canon_case(&mut sink, kinds, styles, n, false);
+    }
+    for _ in 0..args.n(450, 10000) {
+        let n = rand_value16(&mut rng);
+        let kinds = if rng.chance(1, 2) { 0 } else if rng.chance(1, 3) { 15 } else { rng.below(16) as u32 };
+        let styles = if rng.chance(1, 3) { 0 } else { rng.below(65536) as u32 };
+        canon_case(&mut sink, kinds, styles, n, false);
+    }
+    // two groups with arbitrary large units: descending, repeated, increasing (C15_unit_order_behaviour)
+    for (ar1, st1, ar2, st2, g1, e1, g2, e2) in [(false, 0u32, true, 0u32, [0u32, 1, 0, 0], 4usize, [0u32, 0, 0, 3], 4usize), (false, 0, false, 0, [1, 0, 0, 0], 4, [0, 5, 0, 0], 4),
+                                                 (true, 0, true, 0, [0, 0, 0, 1], 4, [0, 0, 0, 2], 4), (true, 0, true, 0, [0, 0, 0, 1], 4, [0, 0, 0, 2], 8),
+                                                 (false, 0, false, 0, [0, 0, 2, 0], 4, [0, 0, 0, 5], 4), (false, 0, false, 0, [0, 0, 2, 0], 4, [0, 0, 5, 0], 4)] {
+        two_unit_case(&mut sink, ar1, st1, ar2, st2, g1, e1, g2, e2, false);
+    }
+    for _ in 0..args.n(350, 8000) {
+        let (g1, g2) = (rand_group(&mut rng), rand_group(&mut rng));
+        let e1 = *rng.pick(&[4usize, 8, 12][..]);
+        let e2 = if rng.chance(1, 2) { e1 } else { *rng.pick(&[4usize, 8, 12][..]) };
+        two_unit_case(&mut sink, rng.chance(1, 3), rng.below(16) as u32, rng.chance(1, 2), rng.below(16) as u32, g1, e1, g2, e2, false);
     }
     // malformed stream
     for _ in 0..args.n(500, 10000) {
